@@ -83,7 +83,7 @@ def value_factory(seed, idx, j):
 
 
 def exception_specs():
-    from vf import ffuncs
+    from vf import ffuncs, ffuncs_other
 
     return [
         ("ValueError", ValueError, ("bad value é",)), ("KeyError", KeyError, ("missing",)),
@@ -95,6 +95,10 @@ def exception_specs():
         ("UnicodeDecodeError", UnicodeDecodeError, ("utf-8", b"\xff", 0, 1, "bad byte")),
         ("Transient", ffuncs.Transient, ("try later",)),
         ("AssertionError", AssertionError, ()), ("ValueError2", ValueError, ("a", "b")),
+        # classes that share their name with a class of another module: a failure of the namesake is recorded and
+        # replayed in the same process first (see check_exception)
+        ("CustomError@other", ffuncs_other.CustomError, ("other custom msg",)),
+        ("ValueError@other", ffuncs_other.ValueError, ("other value msg",)),
     ]
 
 
@@ -268,6 +272,19 @@ def check_value(out, fail, produce, mod, cid, expected, label, st, bname, REC, R
 
 def check_exception(out, fail, produce, mod, cid, cls, args, label, st, bname, REC, MementoException,
                     NonMemoizedException):
+    if cls.__module__ == "vf.ffuncs_other":
+        # the namesake (vf.ffuncs.CustomError / the builtin ValueError) fails, is recorded and replayed first
+        from vf import ffuncs as _ff
+
+        namesake = getattr(_ff, cls.__name__, None) or getattr(__import__("builtins"), cls.__name__)
+        pre = "namesake-" + cid
+        _ff.TABLE[pre] = ("__raise__", namesake, ("namesake msg",))
+        for _ in range(2):
+            got = call(produce, "normal", pre)
+            if got[0] != "raise" or type(got[1]) is not namesake:
+                fail("replayed exception has the wrong class", "%s: namesake %s.%s came back as %s"
+                     % (label, namesake.__module__, namesake.__name__, domain.describe(got, 100)))
+        out["obs"]["exceptions_replayed_after_a_namesake_of_another_module"] += 1
     orig = cls(*args)
     msg = str(orig)
     non_memo = issubclass(cls, NonMemoizedException)
